@@ -319,3 +319,267 @@ def check_uses(ck, P, rid):
     ck.expect(rid, len(sites), 8 if cfgname == "asbuilt" else 10, "comparator expansions")
     ck.expect(rid, n_heap, 6, "heap operations on event heaps")
     return sites
+
+
+# ---------------------------------------------------------------------------------------------------------------
+# heap shape: the sift loops of heap_insert / heap_extract, at every expansion on an event heap
+
+def _find(n, pred):
+    return [x for x in n.walk() if pred(x)]
+
+
+def _assign_to(st, name):
+    """If st is `name = rhs` return rhs."""
+    e = X.strip(st)
+    if e is not None and e.k == "BinaryOperator" and e.op == "=":
+        t = X.strip(e.children[0])
+        if t.k == "DeclRefExpr" and t.name == name:
+            return e.children[1]
+    return None
+
+
+def _store_elem(st, arr):
+    """If st is `arr[idx] = rhs` return (idx, rhs)."""
+    e = X.strip(st)
+    if e is not None and e.k == "BinaryOperator" and e.op == "=":
+        t = X.strip(e.children[0])
+        if t.k == "ArraySubscriptExpr" and X.strip(t.children[0]).k == "DeclRefExpr" and X.strip(t.children[0]).name == arr:
+            return t.children[1], e.children[1]
+    return None
+
+
+def _subscripts(n, arr):
+    return [x for x in n.walk() if x.k == "ArraySubscriptExpr" and X.strip(x.children[0]).k == "DeclRefExpr" and X.strip(x.children[0]).name == arr]
+
+
+def check_heap_shape(ck, P, rid, sites):
+    """Insert and extract must agree on the tree: extract's child function C and insert's parent function P satisfy
+    P(C(j)) = P(C(j)+1) = j; the comparisons have the operand roles and polarity of a min-heap; the sibling is looked at whenever it
+    exists; the moved element and the hole index are updated in the order that keeps `hole = parent of candidate`."""
+    from . import ceval
+    cfgname = P.config
+    good = {}
+    for f, n, macro, res in sites:
+        if not isinstance(res, str):
+            good[n.id] = (n, res)
+    parents = []       # (site, fn(v) -> parent index)
+    children = []      # (site, fn(j) -> first child)
+    n_sites = 0
+    for f in P.all_functions():
+        for n in f.walk():
+            if not (n.k == "StmtExpr" and n.macros and n.macros[0] in ("heap_insert", "heap_extract")):
+                continue
+            macro = n.macros[0]
+            inst = "shape:%s@%s" % (macro, f.name)
+            comps = [(g, res) for g, res in good.values() if g.is_inside(n)]
+            body = n.children[0]
+            loops = [s for s in body.children if s.k == "WhileStmt"]
+            if len(loops) != 1:
+                ck.inconclusive(rid, inst, n.where, "sift loop not recognised", cfgname)
+                continue
+            n_sites += 1
+            lp = loops[0]
+            cond = X.strip(lp.children[-2]) if len(lp.children) >= 2 else None
+            lbody = lp.children[-1]
+            stmts = lbody.children if lbody.k == "CompoundStmt" else [lbody]
+            after = body.children[body.children.index(lp) + 1:]
+            if macro == "heap_insert":
+                # while(H && cmp(elem, items[P(H)])) { items[H] = items[P(H)]; H = P(H); }  items[H] = elem;
+                if cond is None or cond.k != "BinaryOperator" or cond.op != "&&" or X.strip(cond.children[0]).k != "DeclRefExpr":
+                    ck.inconclusive(rid, inst, lp.where, "sift-up condition is not `hole && cmp(...)`", cfgname)
+                    continue
+                H = X.strip(cond.children[0]).name
+                core, neg = X.strip_bool(cond.children[1])
+                cmpn = [(g, res) for g, res in comps if g is core or g is cond.children[1] or g.is_inside(cond.children[1]) or core.is_inside(g)]
+                if len(cmpn) != 1:
+                    ck.inconclusive(rid, inst, lp.where, "comparison in the sift-up condition not recognised", cfgname)
+                    continue
+                g, res = cmpn[0]
+                subs = _subscripts(g, "items")
+                if not subs:
+                    ck.inconclusive(rid, inst, lp.where, "no heap element in the sift-up comparison", cfgname)
+                    continue
+                Pn = subs[0].children[1]
+                ptxt = X.show(subs[0])
+                a_is_parent, b_is_parent = ptxt in res["a"], ptxt in res["b"]
+                # continue iff elem < parent :  cmp(elem, parent)  or  !cmp(parent, elem) [ties keep climbing: still a heap]
+                ok_role = (b_is_parent and not a_is_parent and not neg) or (a_is_parent and not b_is_parent and neg)
+                if not ok_role:
+                    ck.violated(rid, inst, g.where, "sift-up continues when %s%s(%s, %s): the new element climbs over parents that come before it, so the minimum is no longer at the root"
+                                % ("!" if neg else "", "cmp", res["a"], res["b"]), cfgname)
+                    continue
+                mv = [(_store_elem(s, "items"), s) for s in stmts]
+                mv = [(m, s) for m, s in mv if m]
+                up = [(_assign_to(s, H), s) for s in stmts]
+                up = [(m, s) for m, s in up if m is not None]
+                fin = [(_store_elem(s, "items"), s) for s in after]
+                fin = [(m, s) for m, s in fin if m]
+                if len(mv) != 1 or len(up) != 1 or not fin:
+                    ck.inconclusive(rid, inst, lp.where, "sift-up body is not `items[hole] = items[parent]; hole = parent`", cfgname)
+                    continue
+                (mi, mr), ms = mv[0]
+                if X.show(X.strip(mi)) != H or X.show(X.strip(mr)) != ptxt or X.show(X.strip(up[0][0])) != X.show(X.strip(Pn)) or stmts.index(ms) > stmts.index(up[0][1]):
+                    ck.violated(rid, inst, ms.where, "sift-up moves `%s` and then sets the hole to `%s`, but compared with %s: the element is written to a position other than the one whose parent was tested"
+                                % (X.show(X.strip(ms)), X.show(X.strip(up[0][0])), ptxt), cfgname)
+                    continue
+                (fi, fr), fs = fin[0]
+                elem_txt = res["a"] if b_is_parent else res["b"]
+                if X.show(X.strip(fi)) != H:
+                    ck.violated(rid, inst, fs.where, "the new element is stored at `%s`, not at the hole `%s`" % (X.show(X.strip(fi)), H), cfgname)
+                    continue
+                pf = (lambda node, var: (lambda v: ceval.ev(node, {var: v})))(Pn, H)
+                bad = [v for v in range(1, 2049) if pf(v) is None or not (0 <= pf(v) < v)]
+                if bad:
+                    ck.violated(rid, inst, subs[0].where, "parent index `%s` is not below the hole for hole = %d" % (X.show(X.strip(Pn)), bad[0]), cfgname)
+                    continue
+                parents.append((inst, n, pf, X.show(X.strip(Pn))))
+                ck.holds(rid, inst, n.where, "sift-up: while(hole && elem < items[%s]) move the parent down; element stored at the hole" % X.show(X.strip(Pn)), cfgname)
+            else:
+                # while(i < cnt) { i += (i+1 < cnt && cmp(items[i+1], items[i])); if(!cmp(items[i], last)) break; items[j] = items[i]; j = i; i = C(i); } items[j] = last;
+                if cond is None or cond.k != "BinaryOperator" or cond.op not in ("<", ">", "!=") :
+                    ck.inconclusive(rid, inst, lp.where, "sift-down condition is not `child < count`", cfgname)
+                    continue
+                l, r = X.strip(cond.children[0]), X.strip(cond.children[1])
+                if cond.op == ">":
+                    l, r = r, l
+                if l.k != "DeclRefExpr" or r.k != "DeclRefExpr":
+                    ck.inconclusive(rid, inst, lp.where, "sift-down condition is not `child < count`", cfgname)
+                    continue
+                I, CNT = l.name, r.name
+                # count taken after the pop
+                decls = {v.name: (k, v) for k, s in enumerate(body.children) for v in s.children if s.k == "DeclStmt" and v.k == "VarDecl"}
+                pops = [k for k, s in enumerate(body.children) if any(x.k == "UnaryOperator" and x.op == "--" for x in s.walk())]
+                if CNT not in decls or not pops or decls[CNT][0] < pops[0]:
+                    ck.violated(rid, inst, lp.where, "the sift-down bound `%s` is read before the last element is popped: the popped slot is treated as a live child" % CNT, cfgname)
+                    continue
+                sib = [s for s in stmts if X.strip(s).k == "CompoundAssignOperator" and X.strip(s).op == "+=" and X.strip(X.strip(s).children[0]).k == "DeclRefExpr" and X.strip(X.strip(s).children[0]).name == I]
+                ifs = [s for s in stmts if s.k == "IfStmt"]
+                if len(sib) == 0 and len(ifs) == 2:
+                    # if(i + 1 < cnt && cmp(items[i+1], items[i])) i++;
+                    first = ifs[0]
+                    kids = [c for c in first.children if c.k != "Null"]
+                    inc = [x for x in kids[1].walk() if (x.k == "UnaryOperator" and x.op == "++") or (x.k == "CompoundAssignOperator" and x.op == "+=")]
+                    if inc:
+                        sib = [first]
+                        sib_expr = kids[0]
+                        ifs = ifs[1:]
+                    else:
+                        sib_expr = None
+                elif sib:
+                    sib_expr = X.strip(sib[0]).children[1]
+                else:
+                    sib_expr = None
+                if sib_expr is None or len(ifs) != 1:
+                    ck.inconclusive(rid, inst, lp.where, "sibling selection / stop test not recognised", cfgname)
+                    continue
+                se = X.strip(sib_expr)
+                while se.k in ("ImplicitCastExpr", "ParenExpr", "CStyleCastExpr"):
+                    se = X.strip(se.children[0])
+                if se.k != "BinaryOperator" or se.op != "&&":
+                    ck.inconclusive(rid, inst, sib[0].where, "sibling selection is not `guard && cmp(...)`", cfgname)
+                    continue
+                guard = se.children[0]
+                gcmp = [(g, res) for g, res in comps if g is se.children[1] or g.is_inside(se.children[1]) or X.strip(se.children[1]).is_inside(g)]
+                core, neg = X.strip_bool(se.children[1])
+                if len(gcmp) != 1:
+                    ck.inconclusive(rid, inst, sib[0].where, "sibling comparison not recognised", cfgname)
+                    continue
+                g, res = gcmp[0]
+                # the guard admits the sibling whenever it exists
+                miss = None
+                over = None
+                for cnt in range(1, 9):
+                    for i in range(1, cnt):
+                        v = ceval.ev(guard, {I: i, CNT: cnt})
+                        if v is None:
+                            miss = "?"
+                        elif (i + 1 < cnt) and not v:
+                            miss = (i, cnt)
+                        elif not (i + 1 < cnt) and v:
+                            over = (i, cnt)
+                if miss == "?":
+                    ck.inconclusive(rid, inst, guard.where, "sibling guard `%s` cannot be evaluated" % X.show(guard), cfgname)
+                    continue
+                if miss:
+                    ck.violated(rid, inst, guard.where, "sibling guard `%s` is false for child %d of a heap with %d elements although element %d exists: the smaller child can be the one not looked at"
+                                % (X.show(guard), miss[0], miss[1], miss[0] + 1), cfgname)
+                    continue
+                # roles: right sibling first, then i moves onto it
+                sa = [x for x in _subscripts(g, "items") if X.show(x) in res["a"]]
+                sb = [x for x in _subscripts(g, "items") if X.show(x) in res["b"]]
+                def idx(sub, i):
+                    return ceval.ev(sub.children[1], {I: i})
+                role_ok = sa and sb and all(idx(sa[0], i) == i + 1 and idx(sb[0], i) == i for i in (1, 3, 6)) and not neg
+                role_ok_alt = sa and sb and all(idx(sa[0], i) == i and idx(sb[0], i) == i + 1 for i in (1, 3, 6)) and neg
+                if not (role_ok or role_ok_alt):
+                    ck.violated(rid, inst, g.where, "the candidate moves to the right child when %s%s(%s, %s): it ends on the child that comes later, so an element is placed above one that comes before it"
+                                % ("!" if neg else "", "cmp", res["a"], res["b"]), cfgname)
+                    continue
+                # stop test
+                kids = [c for c in ifs[0].children if c.k != "Null"]
+                brk = [x for x in kids[1].walk() if x.k == "BreakStmt"]
+                core, neg = X.strip_bool(kids[0])
+                scmp = [(gg, rr) for gg, rr in comps if gg is kids[0] or gg.is_inside(kids[0]) or core.is_inside(gg) or gg is core]
+                LAST = None
+                for nm, (k, v) in decls.items():
+                    if any(x.k == "UnaryOperator" and x.op == "--" for x in v.walk()):
+                        LAST = nm
+                if not brk or len(scmp) != 1 or LAST is None:
+                    ck.inconclusive(rid, inst, ifs[0].where, "stop test not recognised", cfgname)
+                    continue
+                gg, rr = scmp[0]
+                child_txt = "items[%s]" % I
+                a_child, b_child = child_txt in rr["a"], child_txt in rr["b"]
+                a_last, b_last = LAST in rr["a"], LAST in rr["b"]
+                stop_ok = (a_child and b_last and neg) or (a_last and b_child and not neg)
+                if not stop_ok:
+                    ck.violated(rid, inst, gg.where, "sift-down stops when %scmp(%s, %s): it must stop as soon as the chosen child does not come before the element being placed"
+                                % ("!" if neg else "", rr["a"], rr["b"]), cfgname)
+                    continue
+                # moves
+                mv = [(k, _store_elem(s, "items")) for k, s in enumerate(stmts)]
+                mv = [(k, m) for k, m in mv if m]
+                holes = [nm for nm, (k, v) in decls.items() if nm not in (I, CNT, LAST) and v.children and X.const_int(v.children[-1]) == 0]
+                if len(mv) != 1 or len(holes) != 1:
+                    ck.inconclusive(rid, inst, lp.where, "move of the child into the hole not recognised", cfgname)
+                    continue
+                J = holes[0]
+                kmv, (mi, mr) = mv[0]
+                kj = [k for k, s in enumerate(stmts) if _assign_to(s, J) is not None]
+                ki = [k for k, s in enumerate(stmts) if _assign_to(s, I) is not None]
+                if len(kj) != 1 or len(ki) != 1:
+                    ck.inconclusive(rid, inst, lp.where, "hole / child updates not recognised", cfgname)
+                    continue
+                Cn = _assign_to(stmts[ki[0]], I)
+                if X.show(X.strip(mi)) != J or X.show(X.strip(mr)) != child_txt or X.show(X.strip(_assign_to(stmts[kj[0]], J))) != I or not (kmv < kj[0] < ki[0]):
+                    ck.violated(rid, inst, stmts[kmv].where, "sift-down must do `items[%s] = items[%s]; %s = %s; %s = child(%s)` in this order; found `%s; %s; %s`"
+                                % (J, I, J, I, I, I, X.show(X.strip(stmts[min(kmv, kj[0], ki[0])])), X.show(X.strip(stmts[sorted((kmv, kj[0], ki[0]))[1]])), X.show(X.strip(stmts[max(kmv, kj[0], ki[0])]))), cfgname)
+                    continue
+                fin = [(_store_elem(s, "items"), s) for s in after]
+                fin = [(m, s) for m, s in fin if m]
+                if not fin or X.show(X.strip(fin[0][0][0])) != J or X.show(X.strip(fin[0][0][1])) != LAST:
+                    ck.violated(rid, inst, (fin[0][1] if fin else lp).where, "the popped element is not stored at the final hole `%s`" % J, cfgname)
+                    continue
+                i0 = X.const_int(decls[I][1].children[-1]) if decls[I][1].children else None
+                cf = (lambda node, var: (lambda v: ceval.ev(node, {var: v})))(Cn, I)
+                children.append((inst, n, cf, X.show(X.strip(Cn)), i0))
+                ck.holds(rid, inst, n.where, "sift-down: smaller child chosen whenever a sibling exists, stops when it does not come before the placed element, child = %s" % X.show(X.strip(Cn)), cfgname)
+    # agreement of the two index functions
+    for cinst, cn, cf, ctxt, i0 in children:
+        for pinst, pn, pf, ptxt in parents:
+            if pn.file != cn.file:
+                continue        # a different heap (the serial runtime's and the parallel queue's are separate)
+            bad = None
+            if i0 is None or pf(i0) != 0 or pf(i0 + 1) != 0:
+                bad = "the first candidate %s is not a child of the root under parent(i) = %s" % (i0, ptxt)
+            for j in range(1, 1024):
+                c = cf(j)
+                if c is None or pf(c) != j or pf(c + 1) != j:
+                    bad = bad or "child(%d) = %s but parent(%s) = %s, parent(%s) = %s" % (j, c, c, pf(c) if c is not None else "?", (c + 1) if c is not None else "?", pf(c + 1) if c is not None else "?")
+                    break
+            inst = "tree:%s~%s" % (cinst.split(":", 1)[1], pinst.split(":", 1)[1])
+            if bad:
+                ck.violated(rid, inst, cn.where, "insert and extract disagree on the heap's tree: %s (child(i) = %s, parent(i) = %s)" % (bad, ctxt, ptxt), cfgname)
+            else:
+                ck.holds(rid, inst, cn.where, "parent(child(j)) = parent(child(j)+1) = j for j < 1024 with child(i) = %s, parent(i) = %s" % (ctxt, ptxt), cfgname)
+    ck.expect(rid, n_sites, 6, "heap sift loops on event heaps")
